@@ -82,6 +82,8 @@ type world struct {
 	tracker k8stesting.ObjectTracker
 	initial *snapshot
 	cur     *snapshot // cached snapshot of the store; nil after any write
+	// ownerPrio: current overrides of the owners' priorityClassName label (event "owner-relabelled")
+	ownerPrio map[string]string
 
 	writes []write
 	reads  int
@@ -105,8 +107,12 @@ func configs() controllers.Configs {
 type snapshot struct {
 	Pods []*v1.Pod
 	PGs  []*v2alpha2.PodGroup
+	// OwnerPrio: owners (apiVersion/kind/name) whose priorityClassName label the environment event
+	// "owner-relabelled" has changed, with the current value
+	OwnerPrio map[string]string
 	view *storeView // lazily computed; snapshots are immutable once taken
 }
+
 
 var (
 	podGVR = schema.GroupVersionResource{Group: "", Version: "v1", Resource: "pods"}
@@ -163,6 +169,16 @@ func (w *world) reset(snap *snapshot) {
 	for _, p := range snap.Pods {
 		must(w.tracker.Create(podGVR, p.DeepCopy(), ns))
 	}
+	for k := range w.ownerPrio {
+		if _, keep := snap.OwnerPrio[k]; !keep {
+			must(w.setOwnerPrio(k, ""))
+		}
+	}
+	for k, v := range snap.OwnerPrio {
+		if w.ownerPrio[k] != v {
+			must(w.setOwnerPrio(k, v))
+		}
+	}
 	w.cur = snap
 	w.events.events = nil
 	w.writes, w.reads = nil, 0
@@ -186,8 +202,52 @@ func (w *world) snapshot() *snapshot {
 	for i := range gl.Items {
 		s.PGs = append(s.PGs, gl.Items[i].DeepCopy())
 	}
+	s.OwnerPrio = map[string]string{}
+	for k, v := range w.ownerPrio {
+		s.OwnerPrio[k] = v
+	}
 	w.cur = s
 	return s
+}
+
+// setOwnerPrio writes the scenario's owner object (as built) with its priorityClassName label set to
+// val ("" = as built) straight into the object tracker.
+func (w *world) setOwnerPrio(key, val string) error {
+	for _, o := range w.sc.Owners {
+		if o.GetAPIVersion()+"/"+o.GetKind()+"/"+o.GetName() != key {
+			continue
+		}
+		c := o.DeepCopy()
+		if val != "" {
+			l := map[string]string{}
+			for k, v := range c.GetLabels() {
+				l[k] = v
+			}
+			l["priorityClassName"] = val
+			c.SetLabels(l)
+		}
+		gvr, _ := meta.UnsafeGuessKindToResource(c.GroupVersionKind())
+		cur, err := w.tracker.Get(gvr, ns, c.GetName())
+		if err != nil {
+			return err
+		}
+		if acc, err := meta.Accessor(cur); err == nil {
+			c.SetResourceVersion(acc.GetResourceVersion())
+		}
+		if err := w.tracker.Update(gvr, c, ns); err != nil {
+			return err
+		}
+		if w.ownerPrio == nil {
+			w.ownerPrio = map[string]string{}
+		}
+		if val == "" {
+			delete(w.ownerPrio, key)
+		} else {
+			w.ownerPrio[key] = val
+		}
+		return nil
+	}
+	return nil // the owner is not one of the scenario's owner objects (a pod that is its own owner): no event
 }
 
 func must(err error) {
@@ -382,6 +442,8 @@ type storeView struct {
 	c    string    // cached canonical encoding
 	PGs  []pgView  `json:"podgroups"`
 	Pods []podView `json:"pods"`
+	// OwnerPrio: see snapshot.OwnerPrio (part of the state: it decides what the next reconcile computes)
+	OwnerPrio map[string]string `json:"owner_priority_labels,omitempty"`
 }
 
 func ownerStr(o metav1.OwnerReference) string {
@@ -416,6 +478,9 @@ func (w *world) view() *storeView {
 		v.Pods = append(v.Pods, podView{Name: p.Name, Group: g, HasGroup: ok, SubGroup: p.Labels[subGroupKey]})
 	}
 	sort.Slice(v.Pods, func(i, j int) bool { return v.Pods[i].Name < v.Pods[j].Name })
+	if len(s.OwnerPrio) > 0 {
+		v.OwnerPrio = s.OwnerPrio
+	}
 	s.view = v
 	return v
 }
@@ -450,7 +515,10 @@ func (v *storeView) pod(name string) *podView {
 // ---------------------------------------------------------------- foreign actors
 
 // Foreign updates: writes by OTHER actors (pod-group-assigner / admin / scheduler) straight to the store.
-var foreignKinds = []string{"queue", "queue-spec-only", "queue-label-only", "markUnschedulable", "schedulingBackoff", "nodepool", "nodepool-removed", "scheduler"}
+// "owner-relabelled" is not a write to the PodGroup: the workload's top owner gets another
+// priorityClassName label, so that the NEXT reconcile has a legitimate difference to write - and has to
+// write it without touching the fields other actors own.
+var foreignKinds = []string{"queue", "queue-spec-only", "queue-label-only", "markUnschedulable", "schedulingBackoff", "nodepool", "nodepool-removed", "scheduler", "owner-relabelled"}
 
 const (
 	foreignQueue    = "q-foreign"
@@ -471,6 +539,16 @@ func (w *world) foreign(kind, pgName string) error {
 		g.Annotations = map[string]string{}
 	}
 	switch kind {
+	case "owner-relabelled":
+		if len(g.OwnerReferences) == 0 {
+			return nil
+		}
+		ref := g.OwnerReferences[0]
+		key := ref.APIVersion + "/" + ref.Kind + "/" + ref.Name
+		if w.ownerPrio[key] != "" {
+			return nil // one relabelling per owner and history
+		}
+		return w.setOwnerPrio(key, "train")
 	case "queue":
 		g.Spec.Queue = foreignQueue
 		g.Labels[queueKey] = foreignQueue
